@@ -853,14 +853,15 @@ Definition spec_ok (sp : axspec) : Prop :=
 
 Lemma from_shape_names ds shape axs : from_shape ds shape = Ok axs -> names_ok (map aname axs).
 Proof.
-  unfold from_shape. intros H. destruct (negb _); [discriminate|]. destruct (mapM _ _) as [m|] eqn:Em; simpl in H; [|discriminate].
+  unfold from_shape. intros H. destruct (_ <? _); [discriminate|]. destruct (negb _); [discriminate|]. destruct (mapM _ _) as [m|] eqn:Em; simpl in H; [|discriminate].
   destruct (append_all_spec _ _ _ H (NoDup_nil _)) as [-> Hd]. simpl in *. split; [exact Hd|].
   apply (mapM_mk_nonempty (fun p : dname * nat => fst p) (fun _ => KI) (fun p => arange_labels (snd p)) _ _ Em).
 Qed.
 
 Lemma init_axes_dict_ne l ds shape : l <> [] ->
   init_axes (SDict l ds) shape =
-  (let! axs := mapM named l in let! axs := append_all [] axs in
+  (if List.length l <? List.length ds then Err ValueError else
+   let! axs := mapM named l in let! axs := append_all [] axs in
    if negb (forallb (fun ax => existsb (dname_eqb (DStr (aname ax))) ds) axs) then Err ValueError
    else Ok (sort_by (fun ax => dn_index ds (aname ax)) axs)).
 Proof. destruct l; [contradiction | reflexivity]. Qed.
@@ -878,6 +879,7 @@ Proof.
   - destruct (append_all_spec _ _ _ H (NoDup_nil _)) as [-> Hd]. simpl in *. split; assumption.
   - destruct l as [|p0 l0]; [eapply from_shape_names; exact H|].
     change (init_axes (SDict (p0 :: l0) ds) shape = Ok axs) in H. rewrite init_axes_dict_ne in H by discriminate.
+    destruct (_ <? _); [discriminate|].
     destruct (mapM named (p0 :: l0)) as [m|] eqn:Em; cbn [bind] in H; [|discriminate]. unfold named in Em.
     destruct (append_all [] m) as [m'|] eqn:Ea; simpl in H; [|discriminate].
     destruct (negb _); [discriminate|]. injection H as <-.
@@ -1041,6 +1043,9 @@ Proof.
   { intros ->. apply Permutation_nil in Hp. destruct ns as [|n t]; [contradiction|]. destruct ls; discriminate. }
   rewrite (init_axes_dict_ne l' (map DStr ns) (sh v) Hl').
   cbn [init_axes].
+  assert (Hlen : (List.length l' <? List.length (map DStr ns)) = false).
+  { apply Nat.ltb_ge. rewrite (Permutation_length Hp), combine_length, !map_length, Hl, Nat.min_id. apply Nat.le_refl. }
+  rewrite Hlen.
   pose proof (mapM_named_strs ns ls Hl He) as HT. fold (axes_of ns ls) in HT.
   destruct (mapM_perm named _ _ (Permutation_sym Hp) _ HT) as [axs' [E P]].
   rewrite E. simpl.
@@ -1086,13 +1091,13 @@ Theorem ctor_dims_only ds v :
   List.length ds = List.length (sh v) ->
   ctor (SDimsOnly ds) v = ctor (SLists (map (fun n => (KI, arange_labels n)) (sh v)) (Some ds)) v.
 Proof.
-  intros Hl. unfold ctor; simpl. unfold from_shape. rewrite map_length, Hl, Nat.eqb_refl. simpl.
+  intros Hl. unfold ctor; simpl. unfold from_shape. rewrite map_length, Hl, Nat.eqb_refl, Nat.ltb_irrefl. simpl.
   rewrite (mapM_combine_map_r (fun p : dname * labspec => mk_named_axis (fst p) (fst (snd p)) (snd (snd p)))). reflexivity.
 Qed.
 Theorem ctor_nothing v :
   ctor SNothing v = ctor (SDimsOnly (map (fun i => DStr (default_name i)) (seq 0 (List.length (sh v))))) v.
 Proof.
-  unfold ctor; simpl. unfold from_shape. rewrite map_length, seq_length, Nat.eqb_refl. simpl.
+  unfold ctor; simpl. unfold from_shape. rewrite map_length, seq_length, Nat.eqb_refl, Nat.ltb_irrefl. simpl.
   rewrite (mapM_combine_map_l (fun p : dname * nat => mk_named_axis (fst p) KI (arange_labels (snd p)))). reflexivity.
 Qed.
 
